@@ -315,6 +315,15 @@ Proof.
     + exists A, (f :: r). auto.
 Qed.
 
+Lemma is_in_range_first l min max : is_in_range l min max = true ->
+  exists f r, l = f :: r /\ score f <= max.
+Proof.
+  unfold is_in_range. destruct (min >? max); [discriminate|].
+  destruct (rev l) as [|t p]; [discriminate|]. destruct (score t <? min); [discriminate|].
+  destruct l as [|f r]; [discriminate|]. intros H. exists f, r. split; [reflexivity|].
+  destruct (Z.gtb_spec (score f) max); [discriminate|lia].
+Qed.
+
 Lemma llast_in_range_spec z L min max : LInv z L -> ssorted (map ent L) ->
   exists X Y, L = X ++ Y /\ last_in_range (map ent L) min max = rev (map ent X) /\
               llast_in_range z min max = Some (last_or Nil X).
@@ -340,14 +349,12 @@ Proof.
   destruct (rev A) as [|t r] eqn:Er.
   - (* impossible: the first node has score <= max *)
     exfalso. assert (A = []) as -> by (rewrite <- (rev_involutive A), Er; reflexivity).
-    simpl in Eir. unfold is_in_range in Eir. destruct (min >? max); [discriminate|].
-    destruct (rev (map ent B)) as [|tt rr]; [discriminate|]. destruct (score tt <? min); [discriminate|].
-    destruct B as [|b B']; [discriminate|]. simpl in Eir.
-    inversion HB as [|? ? Hb _]; subst. simpl in Hb. apply Z.leb_gt in Hb.
-    destruct (Z.gtb_spec (score (ent b)) max); [discriminate|lia].
+    simpl in Eir. destruct (is_in_range_first _ _ _ Eir) as (f & r' & Ef & Hfs).
+    destruct B as [|b B']; [discriminate|]. simpl in Ef. injection Ef as <- _.
+    inversion HB as [|? ? Hb _]; subst. apply Z.leb_gt in Hb. lia.
   - assert (EA : A = rev r ++ [t]) by (rewrite <- (rev_involutive A), Er; reflexivity).
-    unfold last_or. rewrite Er. rewrite <- map_rev, Er. cbn [map nref].
-    rewrite (lscore_node' z (A ++ B) t HI).
+    unfold last_or. rewrite Er. rewrite <- map_rev, Er. cbn [map].
+    rewrite (lscore_node z (A ++ B) t HI).
     2:{ apply in_or_app. left. rewrite EA. apply in_or_app. right. left. reflexivity. }
     change (score (ent t)) with (ls t). destruct (ls t <? min).
     + exists [], (A ++ B). auto.
